@@ -159,6 +159,15 @@ def cluster_tv(scenario, quick_files, thorough_files):
     return stage
 
 
+def crash_tv(mode, quick_files, thorough_files):
+    def stage(ctx):
+        ctx.drv_par = 8
+        trace_files_stage(ctx, "crash", "crash", ctx.pick(quick_files, thorough_files), module="Trace_Cluster",
+                          cfg=CLUSTER_CFG, extra_args=["-mode", mode], spec="CSpec", subdir="crash_" + mode)
+        ctx.drv_par = None
+    return stage
+
+
 def adversary_tv_stage(ctx):
     """Altered / recombined / forged answers -> real JSON decoder + real verifier -> Trace_Balloon.tla"""
     trace_files_stage(ctx, "adversary", "adv", ctx.pick(8, 16))
@@ -319,6 +328,12 @@ PLANS = {
     "C15": plan("model_checking", [mc_logstore, logstore_tv_stage], RULE_LOGSTORE),
     "C05": plan("model_checking", [mc_cluster, cluster_tv("replicas", 6, 12), thorough_only(balloon_tv_stage)], RULE_CLUSTER),
     "C06": plan("model_checking", [mc_cluster, cluster_tv("replicas", 6, 16)], RULE_CLUSTER),
+    "C07": plan("fault_enumeration", [mc_cluster, crash_tv("kill", 8, 16)], RULE_CLUSTER + "; fault enumeration: a child process hosting a real "
+                "RaftNode SIGKILLs itself immediately before / after the i-th store write (every i of the workload, both sides, with and "
+                "without a prior raft snapshot), is restarted on the same directories, replays its raft log, finishes the workload and "
+                "answers membership queries for every event; non-trivial = each (workload, crash write, side) experiment"),
+    "C08": plan("model_checking", [mc_cluster, crash_tv("stop", 6, 16), balloon_tv_stage], RULE_CLUSTER + "; clean stop + reopen of a child-process "
+                "node at every prefix length (exit status checked) and close/reopen of the balloon at random points on RocksDB"),
     "C09": plan("model_checking", [mc_cluster, cluster_tv("restore", 4, 16)], RULE_CLUSTER),
     "C12": plan("model_checking", [mc_balloon, adversary_tv_stage], RULE_ADV),
 }
